@@ -836,10 +836,18 @@ func genG03(repo string, w *Out) error {
 	// RFC 9110 9.3.6: Content-Length / Transfer-Encoding of a 2xx reply to CONNECT are ignored
 	ignored := false
 	ast.Inspect(dr.Body, func(x ast.Node) bool {
-		as, ok := x.(*ast.AssignStmt)
-		if ok && len(as.Lhs) == 1 && len(as.Rhs) == 1 && dv.Src(as.Lhs[0]) == "res.Body" && dv.Src(as.Rhs[0]) == "http.NoBody" {
-			ignored = true
+		// the replacement must be guarded by "any 2xx" (a guard on 200 alone leaves the other 2xx with a body)
+		is, ok := x.(*ast.IfStmt)
+		if !ok || dv.Src(is.Cond) != "res.StatusCode/100 == 2" {
+			return true
 		}
+		ast.Inspect(is.Body, func(y ast.Node) bool {
+			as, ok := y.(*ast.AssignStmt)
+			if ok && len(as.Lhs) == 1 && len(as.Rhs) == 1 && dv.Src(as.Lhs[0]) == "res.Body" && dv.Src(as.Rhs[0]) == "http.NoBody" {
+				ignored = true
+			}
+			return true
+		})
 		return true
 	})
 	w.DefBool("connect_2xx_body_ignored", ignored)
